@@ -299,6 +299,7 @@ def r4(run: Run, src, rt):
 
 
 def run(run: Run):
+    from .common import cached_guard as _cached_guard
     src = get_source()
     rt = get_runtime(src)
     cg = get_callgraph(src)
@@ -307,14 +308,14 @@ def run(run: Run):
     run.rule('C08.R3', 'one address normaliser and one title map for every public method')
     run.rule('C08.R4', 'no value cache')
     run.rule('C08.R5', 'address normalisation is strict and role-correct (shared with C02.R2/R3)')
-    run.guard('C08.R1', r1, run, src, rt, cg)
-    run.guard('C08.R2', r2_r3, run, src)
-    run.guard('C08.R4', r4, run, src, rt)
+    _cached_guard(run, 'C08.R1', r1, src, rt, cg)
+    _cached_guard(run, 'C08.R2', r2_r3, src)
+    _cached_guard(run, 'C08.R4', r4, src, rt)
     from . import c02
     borrow(run, "C08.R5", c02.r3_both, src)
     from .common import check_per_instance_state
     run.rule('C08.R6', 'runtime state is per instance: one executor cannot change what another one reports')
-    run.guard('C08.R6', check_per_instance_state, run, 'C08.R6', get_runtime(get_source()))
+    _cached_guard(run, 'C08.R6', check_per_instance_state, 'C08.R6', get_runtime(get_source()))
     from . import c18
     run.rule('C08.R7', 'reported sizes are those of the sheet itself: per-sheet accumulators are reset per sheet (shared with C18.R2)')
     borrow(run, 'C08.R7', c18.r2_any, src)
